@@ -117,3 +117,22 @@ Proof.
   - rewrite map_length. apply length_iotaZ.
   - intros j Hj. rewrite nth_map_iotaZ by exact Hj. reflexivity.
 Qed.
+
+Lemma combined_window : forall g w o,
+  impl_window g w = Some o ->
+  impl_slice_origin (g_xorig g) (g_xcell g) (g_nc g) (w_c w) = Some (o_xorig o)
+  /\ impl_slice_origin (g_yorig g) (g_ycell g) (g_nr g) (w_r w) = Some (o_yorig o)
+  /\ impl_slice_vglvls (g_lv g) (w_l w) = Some (o_lv o)
+  /\ impl_slice_time (sec_of_flag (g_sdate g) (g_stime g)) (g_tstep g) (g_nt g) (g_sdate g) (g_stime g) (w_t w)
+     = Some (o_sdate o, o_stime o, o_tstep o)
+  /\ impl_window_times (sec_of_flag (g_sdate g) (g_stime g)) (g_tstep g) (g_nt g) (w_t w) = Some (o_times o).
+Proof.
+  intros g w o H. unfold impl_window in H.
+  destruct (impl_slice_origin (g_xorig g) (g_xcell g) (g_nc g) (w_c w)) as [x|]; [|discriminate].
+  destruct (impl_slice_origin (g_yorig g) (g_ycell g) (g_nr g) (w_r w)) as [y|]; [|discriminate].
+  destruct (impl_slice_vglvls (g_lv g) (w_l w)) as [lv|]; [|discriminate].
+  destruct (impl_slice_time _ _ _ _ _ (w_t w)) as [[[d h] ts]|]; [|discriminate].
+  destruct (impl_window_times _ _ _ (w_t w)) as [tms|]; [|discriminate].
+  injection H as <-. repeat split.
+Qed.
+
